@@ -13,7 +13,7 @@ CONSTANTS
   MaxReads = 0
   MaxClose = 0
   AllowDesync = TRUE
-  MaxOps = 9
+  MaxOps = 8
 VIEW View
 ACTION_CONSTRAINT ExportEnd
 INVARIANTS TypeOK DbIsPrefix DbNotAheadOfSync TxMirrorsRead CommitInfoSound
